@@ -195,7 +195,7 @@ ASSUMPTIONS = [
 def runtime_checks():
     """exact (non-numeric) observations on the real code; returns failing inputs"""
     import torch
-    from neurodiffeq.conditions import EnsembleCondition, IVP, NoCondition, IBVP1D, DoubleEndedBVP1D, DirichletBVP
+    from neurodiffeq.conditions import EnsembleCondition, IVP, NoCondition, IBVP1D, DoubleEndedBVP1D, DirichletBVP, BaseCondition
     from neurodiffeq.networks import FCNN
     bad = []
     for k_net in range(1, 5):
@@ -345,6 +345,51 @@ def runtime_checks():
                     bad.append(dict(case='ensemble on a batch of exactly one (or zero) samples', rows=nrows, conditions=k, shape=list(out.shape), want=[nrows, k]))
             except Exception as e:
                 bad.append(dict(case='ensemble on a batch of exactly one (or zero) samples', rows=nrows, conditions=k, error=f'{type(e).__name__}: {e}'))
+    # ONE condition object in every slot of an ensemble, and a user condition whose re-parameterisation looks at its whole input:
+    # column i is still that condition applied to output unit i alone
+    class Normalise(BaseCondition):
+        def parameterize(self, output_tensor, *input_tensors):
+            return output_tensor / (1.0 + output_tensor.abs().max()) + input_tensors[0] * 0
+    shared = Normalise()
+    net2 = FCNN(1, 2, hidden_units=(3,))
+    raw = net2(tt)
+    want = torch.cat([shared.parameterize(raw[:, i:i + 1], tt) for i in range(2)], dim=1)
+    got = EnsembleCondition(shared, shared).enforce(net2, tt)
+    if tuple(got.shape) != (4, 2) or not torch.allclose(got, want, rtol=0, atol=1e-12):
+        bad.append(dict(case='one (user) condition object in every slot of an ensemble', violated='column i is not the condition applied to output unit i alone',
+                        max_abs_difference=float((got - want).abs().max()) if got.shape == want.shape else 'shape'))
+    same_ivp = IVP(0.25, 1.5)
+    g2 = EnsembleCondition(same_ivp, same_ivp).enforce(net2, tt)
+    w2 = torch.cat([same_ivp.parameterize(raw[:, i:i + 1], tt) for i in range(2)], dim=1)
+    if not torch.allclose(g2, w2, rtol=0, atol=1e-12):
+        bad.append(dict(case='one IVP object in every slot of an ensemble', violated='column i is not the condition applied to output unit i alone'))
+    # output units selected with integers that are not Python ints (np.argmax, np.arange, a 0-d tensor)
+    import numpy as np
+    net3 = FCNN(1, 3, hidden_units=(3,))
+    for what, idx in (('numpy.int64', np.int64(1)), ('element of numpy.arange', np.arange(3)[2]), ('0-d integer tensor', torch.tensor(1)), ('numpy.int32', np.int32(0))):
+        for cname, mk in (('IVP', lambda: IVP(0.25, 1.5)), ('DoubleEndedBVP1D-dn', lambda: DoubleEndedBVP1D(0., 1., x_min_val=0., x_max_prime=1.)), ('NoCondition', lambda: NoCondition())):
+            try:
+                a, b = mk(), mk()
+                a.ith_unit, b.ith_unit = idx, int(idx)
+                ua, ub = a.enforce(net3, tt), b.enforce(net3, tt)
+                if tuple(ua.shape) != (4, 1) or not torch.equal(ua, ub):
+                    bad.append(dict(case='output unit given as an integer that is not a Python int', index_type=what, condition=cname, shape=list(ua.shape),
+                                    violated='the condition does not constrain exactly that output unit'))
+            except Exception as e:
+                bad.append(dict(case='output unit given as an integer that is not a Python int', index_type=what, condition=cname, error=f'{type(e).__name__}: {e}'))
+    # the width check is part of the behaviour, not a debugging aid: it also holds when Python runs with optimisations (-O strips asserts)
+    import subprocess, sys as _sys, os as _os
+    code = ("import warnings; warnings.simplefilter('ignore'); import torch\n"
+            "from neurodiffeq.conditions import EnsembleCondition, IVP\nfrom neurodiffeq.networks import FCNN\n"
+            "try:\n    out = EnsembleCondition(IVP(0., 1.), IVP(0., 2.)).enforce(FCNN(1, 3, hidden_units=(3,)), torch.rand(4, 1))\n    print('ACCEPTED', tuple(out.shape))\n"
+            "except ValueError:\n    print('REJECTED')\n")
+    try:
+        r = subprocess.run([_sys.executable, '-O', '-W', 'ignore', '-c', code], capture_output=True, text=True, timeout=300, env=dict(_os.environ))
+        if 'REJECTED' not in r.stdout:
+            bad.append(dict(case='python -O: 3-output network with a 2-condition ensemble', violated='the mismatch is not rejected with ValueError', stdout=r.stdout[-200:],
+                            stderr=r.stderr[-300:]))
+    except Exception as e:
+        bad.append(dict(case='python -O subprocess', error=f'{type(e).__name__}: {e}'))
     one = lambda t: t
     for mk in (lambda: IBVP1D(0., 1., 0., one, x_min_val=one, x_max_val=one), lambda: DoubleEndedBVP1D(0., 1., x_min_val=0., x_max_val=1.)):
         c = mk()
